@@ -1081,7 +1081,11 @@ class Parser:
             # After skip_whitespace() the NEWLINE is consumed and current() is FENCE_OPEN.
             # The normal INDENT-gated path would leave children empty, silently dropping
             # the literal zone (I1 violation). Parse it here into a bare-key Assignment.
-            if self.current().type == TokenType.FENCE_OPEN:
+            # A fence at (or left of) the block's own indentation is the block's only child.
+            # A fence indented deeper than the block (the form the emitter writes) is an
+            # ordinary first child and may be followed by further children.
+            fence_first = self.current().type == TokenType.FENCE_OPEN
+            if fence_first and self.current().column - 1 <= base_indent:
                 lzv = self.parse_literal_zone()
                 children.append(
                     Assignment(
@@ -1094,9 +1098,12 @@ class Parser:
 
             # Expect indentation for children (deeper than the block's own line;
             # an empty block must not adopt the siblings that follow it)
-            elif self.current().type == TokenType.INDENT and self.current().value > base_indent:
-                child_indent = self.current().value
-                self.advance()
+            elif fence_first or (self.current().type == TokenType.INDENT and self.current().value > base_indent):
+                if fence_first:
+                    child_indent = self.current().column - 1
+                else:
+                    child_indent = self.current().value
+                    self.advance()
 
                 # GH#81: Track current line's indentation to detect implicit dedent
                 # When NEWLINE is consumed without subsequent INDENT, the next token
@@ -1133,6 +1140,11 @@ class Parser:
                         # Next INDENT token will update it, or absence means column 0
                         current_line_indent = 0
                         continue
+
+                    # An indented fence is not preceded by an INDENT token; the column of
+                    # FENCE_OPEN carries the indentation of its line.
+                    if self.current().type == TokenType.FENCE_OPEN and current_line_indent == 0:
+                        current_line_indent = self.current().column - 1
 
                     # GH#81: Check for implicit dedent before parsing child
                     # If current line has less indentation than block children expect,
